@@ -4,6 +4,7 @@ func init() {
 	register("C02", &propDef{
 		Run: func(c *Ctx) {
 			ruleStatusFlow(c, "C02.1")
+			ruleOutcomeLatched(c, "C02.1b")
 			ruleSingleOutcome(c, "C02.2")
 			rulePublishBeforeWake(c, "C02.3")
 			ruleHeaderPublication(c, "C02.4")
@@ -32,6 +33,10 @@ func init() {
 			ruleSingleOutcome(c, "C07.5")
 			ruleLateFramesInert(c, "C07.6")
 			ruleClientIDs(c, "C07.8a", "C07.8b", "C07.8")
+			ruleContextChain(c, "C07.9")
+			ruleHeaderPublication(c, "C07.10")
+			ruleLookAhead(c, "C07.11")
+			ruleCloseSafety(c, "C07.12")
 		},
 		Explain: "Static necessary conditions of per-RPC cancellation: a watcher on the stream's own context calls cancel-stream with that context's error on every successfully created stream; the code mapping table; the cancel frame is emitted only by the CAS winner, from its own goroutine, with the local receiver cancelled; the server's cancel case reaches the stream context cancel on every path, and that cancel precedes the write mutex (no loop/handler deadlock); single outcome by CAS; late frames for disposed ids are inert on both ends.",
 		Assume: []string{"context cancellation semantics", "atomic.Pointer CAS semantics"},
